@@ -82,6 +82,10 @@ class SimParallel:
         i = 0
         for func, args, kwargs in iterable:
             sim.sched_point(("par", site, i))
+            f = sim.explicit.get(sim.fault_label("par_task", (site, i))) if sim.explicit else None
+            if f is not None:
+                sim.fire(f, None)
+                raise RuntimeError("simulated worker failure in Parallel call %d task %d" % (site, i))
             r = func(*args, **kwargs)
             sim.par_tasks += 1
             sim.advance(sim.duration(("par", site)))
@@ -101,6 +105,10 @@ class SimParallel:
             idx = inflight.pop(j)
             order.append(idx)
             sim.sched_point(("par", site, idx))
+            f = sim.explicit.get(sim.fault_label("par_task", (site, idx))) if sim.explicit else None
+            if f is not None:
+                sim.fire(f, None)
+                raise RuntimeError("simulated worker failure in Parallel call %d task %d" % (site, idx))
             func, args, kwargs = cloudpickle.loads(blobs[idx])
             mark = len(sim.zombies)
             sim.in_process_task += 1
